@@ -261,8 +261,12 @@ SetOffset(ax, c, l) ==
     ELSE IF Dev_G92Sign THEN [ax EXCEPT !.off = ax.off + (L2N(ax, c, l) - ax.cur)]
     ELSE [ax EXCEPT !.off = ax.cur - Val(c, l, ax.unit) - ax.hoff]
 
+\* G92 E: always an absolute position, whatever the extruder's addressing mode is
+AxisSetAbs(ax, c, l) ==
+    IF HasV(c, l) THEN [ax EXCEPT !.cur = Val(c, l, ax.unit) + ax.off + ax.hoff, !.k = TRUE] ELSE ax
+
 HandleG92(fs, c) ==
-    [fs EXCEPT !.E = AxisSet(fs.E, c, "E"),
+    [fs EXCEPT !.E = AxisSetAbs(fs.E, c, "E"),
                !.X = SetOffset(fs.X, c, "X"),
                !.Y = SetOffset(fs.Y, c, "Y"),
                !.Z = SetOffset(fs.Z, c, "Z")]
